@@ -43,8 +43,14 @@ pub fn start_election(dbs: &Arc<Databases>) {
             }
 
             if opp.is_none() {
-                log::debug!("No opp registered, will set as primary");
-                election_win(dbs);
+                // The candidate message is not sent by a node that meanwhile accepted an older
+                // candidate (it is a secondary by then): only a node still running for primary claims
+                if dbs.is_eligible() {
+                    log::debug!("No opp registered, will set as primary");
+                    election_win(dbs);
+                } else {
+                    log::info!("No opp registered and no longer eligible to be primary, will stop election");
+                }
                 return;
             }
             start_time = 0;
